@@ -57,7 +57,8 @@ def strip(src):
         else:
             out.append(c)
             i += 1
-    return "".join(out)
+    # attributes (`#[cfg(..)]`, `#[inline]`, …) are not statements
+    return re.sub(r"#!?\[[^\[\]]*(\[[^\[\]]*\][^\[\]]*)*\]", "", "".join(out))
 
 
 def block_at(src, open_idx):
@@ -160,7 +161,7 @@ def walk(body, env, out, sink_names):
         if m:
             i += m.end(); continue
         # for PAT in EXPR {
-        m = re.match(r"for\s+(\(?[\w\s,&]+\)?)\s+in\s+", rest)
+        m = re.match(r"for\s+(.*?)\s+in\s+", rest, re.S)
         if m:
             o = find_open_brace(body, i + m.end())
             it = body[i + m.end():o]
@@ -171,7 +172,7 @@ def walk(body, env, out, sink_names):
             if pat.startswith("("):
                 for v in re.findall(r"\w+", pat):
                     e2[v] = base + "." + v
-            else:
+            elif re.match(r"&?\s*\w+$", pat):
                 e2[pat.lstrip("&").strip()] = base
             walk(blk, e2, out, sink_names)
             i = j; continue
@@ -221,7 +222,13 @@ def walk(body, env, out, sink_names):
         m = re.match(r"let\s+(?:mut\s+)?(\w+)(?:\s*:[^=]+)?\s*=\s*(.*?);?\s*$", stmt, re.S)
         if m and "{" not in m.group(2):
             env = dict(env); env[m.group(1)] = norm(m.group(2), env)
-        scan_calls(stmt, env, out, sink_names)
+        cm = re.search(r"\w+\s*\(\s*([\w.&*]+)\s*,\s*\|(\w+)\|\s*\{", stmt)
+        if cm:
+            blk, _ = block_at(stmt, cm.end() - 1)
+            e2 = dict(env); e2[cm.group(2)] = norm(cm.group(1), env)
+            walk(blk, e2, out, sink_names)
+        else:
+            scan_calls(stmt, env, out, sink_names)
         i = j
     return out
 
@@ -301,6 +308,13 @@ def call_args(stmt, start):
 
 
 def scan_calls(stmt, env, out, sink_names):
+    fe = r"\.for_each\(\|(\w+)\|\s*(\w+)\.push_back\((\w+)(?:\.clone\(\))?\)\)"
+    for m in re.finditer(fe, stmt):
+        if m.group(2) in sink_names and m.group(1) == m.group(3):
+            pre = stmt[:m.start()]
+            base = re.split(r"[;{}]\s*", pre)[-1]
+            out.append(norm(base, env) + "[]")
+    stmt = re.sub(fe, "", stmt)
     for m in re.finditer(r"(\w+)\.(push_back|mark_heap_reference|mark_heap_vector)\s*\(", stmt):
         if m.group(1) not in sink_names:
             continue
@@ -309,11 +323,6 @@ def scan_calls(stmt, env, out, sink_names):
         out.append(t if m.group(2) == "push_back" else "slot(%s)" % t)
     for m in re.finditer(r"([\w.()]+)\.visit_children\s*\(", stmt):
         out.append("visit_children(%s)" % norm(m.group(1), env))
-    for m in re.finditer(r"\.for_each\(\|(\w+)\|\s*(\w+)\.push_back\((\w+)(?:\.clone\(\))?\)\)", stmt):
-        if m.group(2) in sink_names and m.group(1) == m.group(3):
-            pre = stmt[:m.start()]
-            base = re.split(r"[;{}]\s*", pre)[-1]
-            out.append(norm(base, env) + "[]")
 
 
 def visit_table(impl_body, sink_names=("self",)):
@@ -425,7 +434,8 @@ def main():
         die("enumerate_stacks not found")
     roots_enum = []
     walk(sm["enumerate_stacks"][1], {}, roots_enum, ("context",))
-    roots_enum = dedup(roots_enum)
+    roots_enum = dedup(re.sub(r"^.*?\b(stack\[\]|stack_frames\[\].*|current_frame\..*|thread_local_storage\[\])$", r"thread.\1", t)
+                       for t in roots_enum)
     lf = re.search(r"fn\s+live_functions\s*\(", vm)
     live_fn = []
     if lf:
@@ -442,6 +452,7 @@ def main():
         src = strip(open(os.path.join(CORE, rel)).read())
         for m in re.finditer(r"\.(allocate|allocate_vector|allocate_vector_iter|collection)\s*\(", src):
             args = [re.sub(r"\s+", "", a) for a in split_top(call_args(src, m.end() - 1), ",") if a.strip()]
+            args = [re.sub(r"\b(self|ctx|this)\.thread\b", "thread", a).replace("crate::steel_vm::vm::", "").replace("&mut", "&mut ") for a in args]
             if len(args) < 5:
                 continue
             sites.append((rel + ":" + m.group(1), args))
